@@ -285,7 +285,7 @@ pub fn op_props(op: &Value, pre_full: bool, exp_ret: &Value) -> String {
         "s_from_iter" | "s_from_array" => p.extend(["C16", "C12"]),
         _ => p.push("C01"),
     }
-    let panics = exp_ret == &json!(["panic"]) || exp_ret["r"] == "panic";
+    let panics = exp_ret[0] == "panic" || exp_ret["r"] == "panic";
     if panics && !matches!(name, "index" | "index_mut" | "disjoint") {
         p.push("C03");
     }
